@@ -1203,7 +1203,11 @@ func (env *specEnv) call(x *Expr) (Val, error) {
 					return Val{}, fmt.Errorf("no method %s on %v", f.Name, rv.Typ)
 				}
 				e.cur.externsUsed[xs.Name] = true
-				return env.a.pureUF(xs.Name, append([]Val{rv}, vs...), rtyp, env.st), nil
+				uargs := append([]Val{rv}, vs...)
+				if xs.Heap {
+					uargs = append(uargs, Val{Typ: types.Typ[types.Int], T: []Term{e.heapVersion(env.st)}})
+				}
+				return env.a.pureUF(xs.Name, uargs, rtyp, env.st), nil
 			}
 			fn = e.methodByName(rv.Typ, f.Name)
 			if fn == nil {
